@@ -308,7 +308,7 @@ def run(ctx):
         import baize.wsgi as W
         import baize.asgi as A
         for iface in ("wsgi", "asgi"):
-            for missing in (("QUERY_STRING",), ("CONTENT_TYPE",), ("REMOTE_ADDR", "REMOTE_PORT")) if iface == "wsgi" else \
+            for missing in (("QUERY_STRING",), ("CONTENT_TYPE",), ("REMOTE_ADDR", "REMOTE_PORT"), ("REMOTE_PORT",), ("REMOTE_ADDR",), ("SCRIPT_NAME",)) if iface == "wsgi" else \
                     (("query_string",), ("root_path",), ("client",), ("server",), ("query_string", "root_path", "client", "server")):
                 req = servers.Req(path="/page", headers=[("Host", "example.com")])
                 src = servers.make_environ(req) if iface == "wsgi" else servers.make_scope(req)
